@@ -26,6 +26,7 @@ def run(ctx, chk):
     chk.rule("C13.R3", "errors inside an expansion are reported at the use site", floor=1)
     chk.rule("C13.R4", "nesting depth of macro expansion is bounded", floor=1)
     chk.rule("C13.R5", "definition and use agree on the placeholder syntax", floor=1)
+    chk.rule("C13.R7", "a macro argument is substituted in a form the assembler can read back", floor=4)
     chk.rule("C13.R6", "parameters are matched as whole words: the pattern is \\b<one name or a group>\\b", floor=1)
     if "macro_use" not in GA.nts:
         chk.violation("C13.R1", "macro_use", "missing", "no macro_use nonterminal", GA.g["file"])
@@ -93,6 +94,7 @@ def run(ctx, chk):
                               f"{label}: each nested macro use re-enters PreprocessorParser::parse natively (action -> parse -> action) and nothing bounds the depth: "
                               f"a chain m1 -> m2 -> ... -> mN of distinct macros recurses N parser activations deep and exhausts the stack for large N", where)
     whole_word_rule(ctx, chk)
+    argument_round_trip(ctx, chk)
     # R5 placeholder syntax
     fm_def = fmt_strings(GA, "macro_def")
     fm_use = fmt_strings(GA, "macro_use")
@@ -189,3 +191,67 @@ def whole_word_rule(ctx, chk):
                 chk.ok("C13.R6", "macro_def", f"{lit!r} with {'one parameter name' if single else 'a grouped alternation'}: whole-word match")
             else:
                 chk.undecided_("C13.R6", "macro_def", f"argument of the pattern literal not recognised ({a.get('k')})")
+
+
+def argument_round_trip(ctx, chk):
+    """C13.R7: macro_use substitutes the *value* of each general_string argument into the body and parses the result with
+    the assembler grammar again.  The value of an operand nonterminal is its emitted (interpreter) spelling, so every
+    template a general_string alternative can yield must itself be accepted by the assembler grammar in an operand
+    position of the same class; otherwise a legal argument makes the expansion fail (or mean something else)."""
+    from asm import GramEval
+    from astev import Str, tmpl_str
+    from lang import instantiate, parse_lines
+    GA = ctx.gram("preprocessor")
+    E = GramEval(GA)
+    if "general_string" not in GA.nts:
+        chk.undecided_("C13.R7", "general_string", "nonterminal not found")
+        return
+    ctxs = []
+    for k, p in enumerate(GA.productions("general_string")):
+        label = GA.prod_label("general_string", k)
+        v = None
+        for q in E.prod_paths("general_string", k):
+            if isinstance(q.ret, Str):
+                v = q.ret if v is None else Str(v.t | q.ret.t)
+        if v is None:
+            chk.undecided_("C13.R7", label, "value of the alternative is not a template")
+            continue
+        for t in sorted(v.t, key=tmpl_str):
+            if any(part[0] == "hole" and part[1] in ("unknown", "replaced") for part in t):
+                chk.undecided_("C13.R7", label, f"argument text `{tmpl_str(t)}` is not followed by the action evaluator")
+                continue
+            for text, holes in instantiate(t, False)[:1]:
+                first = text.split()[0] if text.split() else ""
+                if first == "byte":
+                    sent = f"start: mov al, {text}\n"
+                elif first == "word":
+                    sent = f"start: mov ax, {text}\n"
+                elif first in ("al", "bl", "cl", "dl", "ah", "bh", "ch", "dh"):
+                    sent = f"start: mov al, {text}\n" if first != "al" else f"start: mov bl, {text}\n"
+                elif text.strip().lstrip("-").isdigit():
+                    sent = f"start: mov ax, {text}\n"
+                elif first in ("es", "ds", "ss", "cs"):
+                    sent = f"start: mov ax, {text}\n"
+                elif first in ("ax", "bx", "cx", "dx", "si", "di", "sp", "bp"):
+                    sent = f"start: mov es, {text}\n"
+                else:
+                    sent = f"start: jmp {text}\n"
+                ctxs.append((label, p, text, sent))
+    res = parse_lines(ctx.facts.gram_path("preprocessor"), [c[3] for c in ctxs]) if ctxs else []
+    seen = set()
+    for (label, p, text, sent), r in zip(ctxs, res):
+        shape = "with-segment-override" if ":" in text else "plain"
+        if r["ok"]:
+            if (label, shape) not in seen:
+                seen.add((label, shape))
+                chk.ok("C13.R7", f"{label}:{shape}", f"`{text}` is accepted again in operand position")
+        else:
+            key = (label, shape, "bad")
+            if key in seen:
+                continue
+            seen.add(key)
+            tok = r["tokens"][r["at_token"]][1] if r.get("tokens") and r.get("at_token") is not None and r["at_token"] < len(r["tokens"]) else "<end>"
+            chk.violation("C13.R7", label, f"argument-not-reparsable:{shape}",
+                          f"{label}: the argument is substituted as `{text}` (the emitted spelling), which the assembler grammar does not accept inside the expansion "
+                          f"(stops at `{tok}`): a macro used with this kind of argument is rejected although the hand-expanded instruction is legal",
+                          f"{GA.g['file']}:{p['line']}", witness=f"macro ld(a) -> mov al, a <- ; ld({text.replace(':', '')})")
